@@ -402,6 +402,8 @@ def oracle_regs(regs, nums):
 def extra_numpy_stream(rng):
     """operators outside the modelled subset: differential test against numpy (a test, not a proof)"""
     c = cl()
+    from sageopt.coniclifts.operators.abs import abs as clabs_
+    from sageopt.coniclifts.operators.pos import pos as clpos_
     w = World(rng)
     x, Y, Z = w.vars[0], w.vars[1], w.vars[3]
     vx, vY, vZ = w.values['x'], w.values['Y'], w.values['Z']
@@ -449,6 +451,17 @@ def extra_numpy_stream(rng):
         ('dsplit', lambda: c.dsplit(c.stack((Y, 2 * Y), axis=2), 2)[1], lambda: np.dsplit(np.stack((vY, 2 * vY), axis=2), 2)[1]),
         ('diag(k=1)', lambda: c.diag(Y, 1), lambda: np.diag(vY, 1)),
         ('diagflat(k=-1)', lambda: c.diagflat(x, -1), lambda: np.diagflat(vx, -1)),
+        # atoms of DIFFERENT classes on the SAME affine argument are different atoms: in one cell, one sum, one contraction
+        ('abs(a) + pos(a)', lambda: clabs_(2 * x - 1.0) + clpos_(2 * x - 1.0), lambda: np.abs(2 * vx - 1.0) + np.maximum(2 * vx - 1.0, 0)),
+        ('3 pos(a) - abs(a)', lambda: 3 * clpos_(2 * x - 1.0) - clabs_(2 * x - 1.0), lambda: 3 * np.maximum(2 * vx - 1.0, 0) - np.abs(2 * vx - 1.0)),
+        ('w @ vstack(abs(a), pos(a))', lambda: np.array([1.0, -2.0]) @ c.vstack((clabs_(x - 0.5), clpos_(x - 0.5))),
+         lambda: np.array([1.0, -2.0]) @ np.vstack((np.abs(vx - 0.5), np.maximum(vx - 0.5, 0)))),
+        ('sum(vstack(abs(a), pos(a)), axis=0)', lambda: c.sum(c.vstack((clabs_(x - 0.5), clpos_(x - 0.5))), axis=0),
+         lambda: np.sum(np.vstack((np.abs(vx - 0.5), np.maximum(vx - 0.5, 0))), axis=0)),
+        ('exp(a0) + abs(a0) + pos(a0)', lambda: c.weighted_sum_exp(np.array([1.0]), x[:1] - 0.5) + clabs_(x[:1] - 0.5) + clpos_(x[:1] - 0.5),
+         lambda: np.exp(vx[:1] - 0.5) + np.abs(vx[:1] - 0.5) + np.maximum(vx[:1] - 0.5, 0)),
+        ('norm((a0, a1)) + abs(a0) - pos(a1)', lambda: c.vector2norm(x[:2] - 0.5) + clabs_(x[:1] - 0.5) - clpos_(x[1:2] - 0.5),
+         lambda: np.linalg.norm(vx[:2] - 0.5) + np.abs(vx[:1] - 0.5) - np.maximum(vx[1:2] - 0.5, 0)),
         ('constant matrix @ constant Expression', lambda: np.diag([1.0, 10.0, 100.0]) @ c.Expression(np.array([1.0, 2.0, 3.0])),
          lambda: np.array([1.0, 20.0, 300.0])),
     ]
